@@ -25,6 +25,8 @@ package main
 // (transitively), and rules compare objects through Root.
 
 import (
+	"fmt"
+	"os"
 	"go/ast"
 	"go/token"
 	"go/types"
@@ -83,7 +85,7 @@ func inlineCalls(p *packages.Package, self *ast.FuncDecl, body *ast.BlockStmt, d
 }
 
 func inlineCallsOpt(p *packages.Package, self *ast.FuncDecl, body *ast.BlockStmt, depth int, skip func(fn *types.Func) bool, methods bool) (*ast.BlockStmt, *inlineAliases) {
-	in := &callInliner{p: p, info: p.TypesInfo, byObj: map[types.Object]*ast.FuncDecl{}, skip: skip, budget: 4000, methods: methods,
+	in := &callInliner{p: p, info: p.TypesInfo, byObj: map[types.Object]*ast.FuncDecl{}, skip: skip, budget: 40000, methods: methods,
 		aliases: &inlineAliases{alias: map[types.Object]types.Object{}, ambiguous: map[types.Object]bool{}}}
 	for _, f := range p.Syntax {
 		for _, d := range f.Decls {
@@ -451,6 +453,9 @@ func (in *callInliner) expand(st ast.Stmt, depth int, active map[*ast.FuncDecl]b
 		}
 	}
 	fd := in.helperFor(call, active)
+	if os.Getenv("DAWGSVET_INLDBG") != "" && call != nil {
+		fmt.Printf("INLDBG call %s helper=%v depth=%d\n", types.ExprString(call.Fun), fd != nil, depth)
+	}
 	if fd == nil {
 		return nil
 	}
@@ -469,8 +474,31 @@ func (in *callInliner) expand(st ast.Stmt, depth int, active map[*ast.FuncDecl]b
 	saved := in.budget
 	list, ok := in.tailForm(fd.Body.List)
 	if !ok {
+		if os.Getenv("DAWGSVET_INLDBG") != "" {
+			fmt.Printf("INLDBG tailForm failed for %s\n", fd.Name.Name)
+		}
 		in.budget = saved
 		return nil
+	}
+	if ifs != nil {
+		// the arms of the if are rewritten as well: they may call helpers of their own
+		c := *ifs
+		c.Body = in.rewriteBlock(ifs.Body, depth, active)
+		if ifs.Else != nil {
+			out := in.rewriteStmt(ifs.Else, depth, active)
+			switch {
+			case len(out) == 1:
+				switch out[0].(type) {
+				case *ast.BlockStmt, *ast.IfStmt:
+					c.Else = out[0]
+				default:
+					c.Else = &ast.BlockStmt{Lbrace: ifs.Else.Pos(), List: out, Rbrace: ifs.Else.End()}
+				}
+			case len(out) > 1:
+				c.Else = &ast.BlockStmt{Lbrace: ifs.Else.Pos(), List: out, Rbrace: ifs.Else.End()}
+			}
+		}
+		ifs = &c
 	}
 	subst := map[types.Object]ast.Expr{}
 	pre := in.bindArgs(fd, call, subst)
@@ -632,8 +660,18 @@ func (in *callInliner) rewriteStmt(st ast.Stmt, depth int, active map[*ast.FuncD
 		c := *t
 		c.Body = in.rewriteBlock(t.Body, depth, active)
 		if t.Else != nil {
-			if out := in.rewriteStmt(t.Else, depth, active); len(out) == 1 {
-				c.Else = out[0]
+			out := in.rewriteStmt(t.Else, depth, active)
+			switch {
+			case len(out) == 1:
+				switch out[0].(type) {
+				case *ast.BlockStmt, *ast.IfStmt:
+					c.Else = out[0]
+				default:
+					c.Else = &ast.BlockStmt{Lbrace: t.Else.Pos(), List: out, Rbrace: t.Else.End()}
+				}
+			case len(out) > 1:
+				// `else if v, err := h(x); …` with h inlined: the helper's statements and the if that follows them
+				c.Else = &ast.BlockStmt{Lbrace: t.Else.Pos(), List: out, Rbrace: t.Else.End()}
 			}
 		}
 		return []ast.Stmt{&c}
